@@ -88,8 +88,6 @@ pub fn rhs_reduced() -> Vec<PTy> {
         v("c"),
         v("d"),
         PTy::opt(v("a")),
-        PTy::vec(v("b")),
-        PTy::Record(vec![(l("a"), v("c"))]),
         f(vec![v("a")], vec![], vec![]),
         svc(vec![("m", v("a"))]),
         svc(vec![("m", v("c"))]),
